@@ -58,7 +58,7 @@ def rows_for(f, name):
         X_i = vp[0]
         return [
             dict(atoms=[f"{X_i}[*].sum_px"], sign="+", why="pooled first-order statistics"),
-            dict(atoms=MEAN, sign="-", with_=[f"{X_i}[*].n"], why="N m is subtracted"),
+            dict(atoms=MEAN, sign="-", with_=["*[*].n"], why="N m is subtracted (the pooled counts of the probe's statistics, summed here or by the caller)"),
         ]
     return []
 
@@ -71,6 +71,7 @@ def check_residuals(P, R):
         f = P.func(FA + name)
         R.analysed(f)
         p = pol.Pol(P, f)
+        p.expand_params = True
         t = list(dict.fromkeys(p.value_terms()))
         for row in rows_for(f, name):
             pol.check_row(R, "POL.residual", f.key, t, row)
@@ -88,6 +89,28 @@ PRECISIONS = {
     "_compute_id_plus_vprod_i": ("p1", "p0"),
     "_compute_id_plus_us_prod_inv": ("_U", "p0[*].n"),
 }
+
+
+def _param_arg_atoms(P, f, pname):
+    """Atoms of the expressions that the package's call sites pass for parameter `pname` of f (union over call sites); None if some
+    call site passes nothing traceable."""
+    atoms = set()
+    n_sites = 0
+    for g in P.all_funcs():
+        for c in walk_no_nested(g.node):
+            if not isinstance(c, ast.Call):
+                continue
+            fexpr = P.peel_call(c, g)[1]
+            if not any(t_[0] == "repo" and t_[1] is f for t_ in P.resolve_callee(fexpr, g)):
+                continue
+            b = P.bind_args(f, P.peel_call(c, g)[2], P.peel_call(c, g)[3])
+            if pname not in b:
+                continue  # default used at this site
+            n_sites += 1
+            pg = pol.Pol(P, g)
+            for s_, a in pg.terms(b[pname], pg.du.stmt_of(c)):
+                atoms |= set(a)
+    return atoms if n_sites else None
 
 
 def check_precisions(P, R, only=None):
@@ -126,13 +149,24 @@ def check_precisions(P, R, only=None):
                 R.violation("PREC.data", f.key, f"{proj_a} term in `{src(e)[:60]}`", "data term of the posterior precision is missing", node.lineno)
                 continue
             pos = all(x[0] == 1 for x in dat)
-            wcnt = all(any(pol._match(a, [cnt_a]) for a in x[1]) for x in dat)
+            def counted(term):
+                if any(pol._match(a, [cnt_a]) for a in term[1]):
+                    return True
+                # an optional parameter that carries the (pooled) counts computed by the caller
+                for a in term[1]:
+                    if a in f.params and a != f.self_name:
+                        got = _param_arg_atoms(P, f, a)
+                        if got and any(x.endswith(".n") for x in got):
+                            return True
+                return False
+
+            wcnt = all(counted(x) for x in dat)
             R.check(pos, "PREC.data", f.key, f"+ {proj_a}·{cnt_a}", pol.fmt_terms(dat), f"data term enters the precision with the wrong sign: {pol.fmt_terms(dat)}", node.lineno)
             R.check(wcnt, "PREC.data", f.key, f"{proj_a} weighted by {cnt_a}", pol.fmt_terms(dat), f"projection term is not weighted by the counts {cnt_a}: {pol.fmt_terms(dat)}", node.lineno)
             # counts and projections multiply, the UBM variances divide
             pi = pol.Pol(P, f, track_inv=True)
             it = list(dict.fromkeys(pi.terms(e, st)))
-            pol.check_inverse(R, "PREC.placement", f.key, it, inverted=["variances", "_variances"], direct=[cnt_a, proj_a], what=f"precision `{src(e)[:50]}`: counts multiply, variances divide", line=node.lineno)
+            pol.check_inverse(R, "PREC.placement", f.key, it, inverted=["variances", "_variances"], direct=[cnt_a, proj_a] + [p_ for p_ in f.value_params], what=f"precision `{src(e)[:50]}`: counts multiply, variances divide", line=node.lineno)
         # the function returns the inverted quantity
         du = p.du
         for r in rets:
